@@ -269,6 +269,12 @@ def patCount (ords : Bytes) (patnum : Nat) : Nat :=
   let m := ords.foldl (fun (m : Nat) o => if o.toNat < 0xfe ∧ o.toNat + 1 > m then o.toNat + 1 else m) 0
   if m > patnum then patnum else m
 
+/-- the first order entry that is not a skip marker (0xfe) names a stored pattern -/
+def startsAtPattern (pat : Nat) (ords : Bytes) : Bool :=
+  match ords.dropWhile (· == 0xfe) with
+  | o :: _ => o.toNat < pat
+  | [] => false
+
 def chnCount (chset : Bytes) : Nat :=
   (chset.zipIdx.foldl (fun (m : Nat) (c, i) => if c ≠ 0xff then i + 1 else m) 0)
 
@@ -314,6 +320,7 @@ def readIns (file : Bytes) (unsigned : Bool) : List Nat → Nat → Option (List
       let h := decSmpHdr b
       if h.typ ≥ 2 then none                      -- AdLib instrument: not modelled
       else if h.len > 0x10000000 then none
+      else if h.lps ≥ 0x80000000 ∨ h.lpe ≥ 0x80000000 then none   -- negative as C `int`: not modelled
       else if h.typ = 1 ∧ h.magic ≠ str "SCRS" then none
       else if h.pack = 4 then none                -- ADPCM: not modelled
       else match hdrSmp file unsigned h with
@@ -335,6 +342,8 @@ def read (bs : Bytes) : Option Module := do
   let (ords, r) ← takeN ordnum (bs.drop 96)
   let pat := patCount ords patnum
   if pat = 0 then none
+  -- `libxmp_scan_sequences` refuses a song whose first real order entry is not a stored pattern
+  if !(startsAtPattern pat ords) then none
   let (ib, r) ← takeN (2 * insnum) r
   let (pb, _) ← takeN (2 * patnum) r
   let ppIns := decodeN 2 rd16le insnum ib
